@@ -465,6 +465,12 @@ func c01Cases(kind string, seed uint64, n int) []c01Case {
 		mk("macro-recursion", "a.tpl", map[string]string{"a.tpl": `{% import "lib.tpl" a %}{{ a() }}`, "lib.tpl": `{% macro a(x=a()) export %}{{ x }}{% endmacro %}`})
 		mk("macro-recursion", "a.tpl", map[string]string{"a.tpl": `{% macro a(x) %}{% with y=a(x) %}{{ y }}{% endwith %}{% endmacro %}{{ a(1) }}`})
 		mk("macro-recursion", "a.tpl", map[string]string{"a.tpl": `{% macro a(x) %}{% for q in "ab" %}{% if a(q) %}{% endif %}{% endfor %}{% endmacro %}{{ a(1) }}`})
+		// ifchanged over several watched expressions, each changing at its own pace
+		for _, seq := range []string{"abb", "aab", "abab", "aabb", "abcabc"} {
+			for _, watch := range []string{"c 1", "1 c", "c forloop.Counter", "c c|upper", "forloop.First c", "c 1 forloop.Last", "c|length c"} {
+				mk("ifchanged-multi", "a.tpl", map[string]string{"a.tpl": `{% for c in "` + seq + `" %}{% ifchanged ` + watch + ` %}{{ c }}{% else %}-{% endifchanged %}{% endfor %}`})
+			}
+		}
 		// a cycle value fed back into its own cycle
 		mk("cycle-self", "a.tpl", map[string]string{"a.tpl": `{% for i in "abc" %}{% cycle x as x %}{% endfor %}`})
 		mk("cycle-self", "a.tpl", map[string]string{"a.tpl": `{% for i in "abcd" %}{% cycle "a" "b" as c silent %}{% cycle c as c %}{{ c }}{% endfor %}`})
